@@ -19,7 +19,7 @@ import (
 // C20 — no goroutine outlives a closed connection.
 
 func init() {
-	register(&Prop{ID: "C20", Run: runC20, Quick: 12000, Thorough: 120000, Level: "exploration"})
+	register(&Prop{ID: "C20", Run: runC20, Quick: 12000, Thorough: 1000000, Level: "exploration"})
 }
 
 var bubbleRe = regexp.MustCompile(`synctest bubble (\d+)`)
